@@ -1,20 +1,171 @@
-(** C06 — dangling parameter/service references are detected, exactly (see also Proofs/RefsProofs.v). *)
-From GV Require Import Base.Str Base.Gerr Model.Compile Model.OutVal.
+(** C06 — dangling parameter/service references are detected, exactly. *)
+From GV Require Import Base.Str Base.Gerr Base.Sort Model.Env Model.Input Model.Compile Model.OutVal Model.Runner Proofs.RefsProofs.
 
-(** a reference is reported iff its name is not declared: the [missing] filter is exact *)
-Theorem C06_missing_exact : forall declared l n, In n (missing declared l) <-> In n l /\ ~ In n declared.
-Proof.
-  intros declared l n. unfold missing. rewrite filter_In. split; intros [H1 H2]; split; auto.
-  - intros Hd. apply mem_In in Hd. rewrite Hd in H2. discriminate.
-  - destruct (mem n declared) eqn:Hm; [|reflexivity]. apply mem_In in Hm. contradiction.
-Qed.
-Print Assumptions C06_missing_exact.
+(** the missing-parameter rule passes iff every recorded parameter dependency (parameters, services, decorators) is declared *)
+Theorem C06_params_accept_iff :
+  forall o : output,
+         validate_params_exist o = None <->
+         (forall (p : oparam) (n : str), In p (o_params o) -> In n (op_depends p) -> In n (pnames o)) /\
+         (forall (sv : oservice) (a : arg) (n : str),
+          In sv (o_services o) -> In a (all_args sv) -> In n (a_params a) -> In n (pnames o)) /\
+         (forall (d : odecorator) (a : arg) (n : str),
+          In d (o_decorators o) -> In a (od_args d) -> In n (a_params a) -> In n (pnames o)).
+Proof. exact (@params_exist_ok_iff). Qed.
+Print Assumptions C06_params_accept_iff.
 
-(** nothing declared is ever reported *)
-Theorem C06_declared_never_missing : forall declared l, (forall n, In n l -> In n declared) -> missing declared l = [].
-Proof.
-  intros declared l H. unfold missing. induction l as [|x l IH]; [reflexivity|]. cbn [filter].
-  assert (mem x declared = true) as -> by (apply mem_In; apply H; left; reflexivity).
-  cbn. apply IH. intros n Hn. apply H. right. exact Hn.
-Qed.
-Print Assumptions C06_declared_never_missing.
+(** each diagnostic names the referrer and the missing name, and every dangling reference has its diagnostic *)
+Theorem C06_params_diagnostics :
+  forall (o : output) (m : str),
+         In m (collect (validate_params_exist o)) <->
+         (exists (p : oparam) (n : str),
+            In p (o_params o) /\
+            In n (op_depends p) /\
+            ~ In n (pnames o) /\
+            m =
+            s "output.ValidateParamsExist: " ++
+            Quote.quote (s "%" ++ op_name p ++ s "%") ++ s ": param " ++ Quote.quote n ++ s " does not exist") \/
+         (exists (sv : oservice) (a : arg) (n : str),
+            In sv (o_services o) /\
+            In a (all_args sv) /\
+            In n (a_params a) /\
+            ~ In n (pnames o) /\
+            m =
+            s "output.ValidateParamsExist: " ++
+            Quote.quote (s "@" ++ os_name sv) ++ s ": param " ++ Quote.quote n ++ s " does not exist") \/
+         (exists (j : nat) (d : odecorator) (a : arg) (n : str),
+            nth_error (o_decorators o) j = Some d /\
+            In a (od_args d) /\
+            In n (a_params a) /\
+            ~ In n (pnames o) /\
+            m =
+            s "output.ValidateParamsExist: " ++
+            s "decorator(#" ++
+            dec_of_N (N.of_nat j) ++
+            s ", " ++ Quote.quote (od_tag d) ++ s "): param " ++ Quote.quote n ++ s " does not exist").
+Proof. exact (@params_exist_diag_iff). Qed.
+Print Assumptions C06_params_diagnostics.
+
+(** the same for @service references of services and decorators *)
+Theorem C06_services_accept_iff :
+  forall o : output,
+         validate_services_exist o = None <->
+         (forall (sv : oservice) (a : arg) (n : str),
+          In sv (o_services o) -> In a (all_args sv) -> In n (a_services a) -> In n (snames o)) /\
+         (forall (d : odecorator) (a : arg) (n : str),
+          In d (o_decorators o) -> In a (od_args d) -> In n (a_services a) -> In n (snames o)).
+Proof. exact (@services_exist_ok_iff). Qed.
+Print Assumptions C06_services_accept_iff.
+
+(** diagnostics of the missing-service rule *)
+Theorem C06_services_diagnostics :
+  forall (o : output) (m : str),
+         In m (collect (validate_services_exist o)) <->
+         (exists (sv : oservice) (a : arg) (n : str),
+            In sv (o_services o) /\
+            In a (all_args sv) /\
+            In n (a_services a) /\
+            ~ In n (snames o) /\
+            m =
+            s "output.ValidateServicesExist: " ++
+            Quote.quote (os_name sv) ++ s ": service " ++ Quote.quote n ++ s " does not exist") \/
+         (exists (j : nat) (d : odecorator) (a : arg) (n : str),
+            nth_error (o_decorators o) j = Some d /\
+            In a (od_args d) /\
+            In n (a_services a) /\
+            ~ In n (snames o) /\
+            m =
+            s "output.ValidateServicesExist: " ++
+            s "decorator(#" ++
+            dec_of_N (N.of_nat j) ++
+            s ", " ++ Quote.quote (od_tag d) ++ s "): service " ++ Quote.quote n ++ s " does not exist").
+Proof. exact (@services_exist_diag_iff). Qed.
+Print Assumptions C06_services_diagnostics.
+
+(** nothing declared is reported missing (parameters) *)
+Theorem C06_nothing_declared_reported_params :
+  forall (o : output) (r : referrer) (n : str), In (r, n) (param_diags o) -> ~ In n (pnames o).
+Proof. exact (@param_diags_undeclared). Qed.
+Print Assumptions C06_nothing_declared_reported_params.
+
+(** nothing declared is reported missing (services) *)
+Theorem C06_nothing_declared_reported_services :
+  forall (o : output) (r : referrer) (n : str), In (r, n) (service_diags o) -> ~ In n (snames o).
+Proof. exact (@service_diags_undeclared). Qed.
+Print Assumptions C06_nothing_declared_reported_services.
+
+(** what counts as declared: every parameter and every service of the input, todo ones included *)
+Theorem C06_declared_sets :
+  forall (E : env) (B : str) (i : input) (o : output) (c : cst),
+         w_compiler_steps E = [CValidate; CMeta; CParams; CServices; CDecorators] ->
+         compile E B i = (o, None, c) ->
+         pnames o = sorted_keys (i_params i) /\
+         snames o = sorted_keys (i_services i) /\
+         Datatypes.length (o_decorators o) = Datatypes.length (i_decorators i).
+Proof. exact (@compile_declared). Qed.
+Print Assumptions C06_declared_sets.
+
+(** the dependencies recorded for an argument are exactly the references written in it: @name, !tagged name, %name% chunks (not %%) *)
+Theorem C06_recorded_deps_are_source_refs :
+  forall (E : env) (id v : str),
+         w_arg_chain E = [RNonString; RValue; RService; RTagged; RFixed id v; RPattern] ->
+         w_factories E = [FPercent; FReference; FUnexpectedFunction; FUnexpectedToken; FString] ->
+         forall (p : prim) (c : cst) (a : arg) (c' : cst),
+         resolve_arg E p c = (a, None, c') ->
+         a_services a = src_services E p /\
+         a_tags a = src_tags E p /\ a_params a = src_params E id (cs_fns c) p.
+Proof. exact (@resolve_arg_refs). Qed.
+Print Assumptions C06_recorded_deps_are_source_refs.
+
+(** which chunk of a pattern is a parameter reference *)
+Theorem C06_reference_chunks :
+  forall (E : env) (fns : list Token.fnfact) (ch n : str),
+         k_delim E = "%"%char ->
+         In n (chunk_refs E fns ch) <->
+         ch = "%"%char :: n ++ ["%"%char] /\
+         n <> [] /\
+         Re.site_match (re_tk_TokenRef E) n = true /\
+         existsb (fun f : Token.fnfact => Token.ff_supports E f ch) fns = false.
+Proof. exact (@chunk_refs_spec). Qed.
+Print Assumptions C06_reference_chunks.
+
+(** end to end: after a successful compile the rule passes iff every %name% written in the configuration is a declared parameter *)
+Theorem C06_params_source_iff :
+  forall (E : env) (id v : str),
+         w_arg_chain E = [RNonString; RValue; RService; RTagged; RFixed id v; RPattern] ->
+         w_factories E = [FPercent; FReference; FUnexpectedFunction; FUnexpectedToken; FString] ->
+         w_param_chain E = [RNonString; RPattern] ->
+         w_compiler_steps E = [CValidate; CMeta; CParams; CServices; CDecorators] ->
+         forall (B : str) (i : input) (o : output) (c : cst),
+         compile E B i = (o, None, c) ->
+         validate_params_exist o = None <->
+         (forall (k : str) (p : prim) (n : str),
+          In (k, p) (i_params i) -> In n (param_refs E (meta_fns E i) p) -> In n (keys (i_params i))) /\
+         (forall (k : str) (svc : service) (p : prim) (n : str),
+          In (k, svc) (i_services i) ->
+          is_todo svc = false ->
+          In p (source_args svc) -> In n (src_params E id (meta_fns E i) p) -> In n (keys (i_params i))) /\
+         (forall (d : decorator) (p : prim) (n : str),
+          In d (i_decorators i) ->
+          In p (d_args d) -> In n (src_params E id (meta_fns E i) p) -> In n (keys (i_params i))).
+Proof. exact (@params_exist_source_iff). Qed.
+Print Assumptions C06_params_source_iff.
+
+(** end to end for @service references *)
+Theorem C06_services_source_iff :
+  forall (E : env) (id v : str),
+         w_arg_chain E = [RNonString; RValue; RService; RTagged; RFixed id v; RPattern] ->
+         w_factories E = [FPercent; FReference; FUnexpectedFunction; FUnexpectedToken; FString] ->
+         w_param_chain E = [RNonString; RPattern] ->
+         w_compiler_steps E = [CValidate; CMeta; CParams; CServices; CDecorators] ->
+         forall (B : str) (i : input) (o : output) (c : cst),
+         compile E B i = (o, None, c) ->
+         validate_services_exist o = None <->
+         (forall (k : str) (svc : service) (p : prim) (n : str),
+          In (k, svc) (i_services i) ->
+          is_todo svc = false ->
+          In p (source_args svc) -> In n (src_services E p) -> In n (keys (i_services i))) /\
+         (forall (d : decorator) (p : prim) (n : str),
+          In d (i_decorators i) -> In p (d_args d) -> In n (src_services E p) -> In n (keys (i_services i))).
+Proof. exact (@services_exist_source_iff). Qed.
+Print Assumptions C06_services_source_iff.
+
